@@ -20,10 +20,11 @@ in flight, `queued_only_in_flight`), or complete: `[Queued, Sent, close]`, `[Que
 `[Error, close]` (failed by the shutdown drain before it was ever handed to the network).  Never two
 outcomes, never an outcome after the close, never a second close.
 
-**(S2) eventually** — proved (`eventually`) with the leads-to rule of `GS/Temporal.lean`, for every
-message pending before the queue goroutine's final exit.  It is false for transactions built after
-the final drain (known finding `dead-queue-unreported`; witness `dead_queue_unreported`).  On the
-real code the watchdog oracle checks the same after a fair epilogue of every script.
+**(S2) eventually** — proved (`eventually`, `eventually_attached`) with the leads-to rule of
+`GS/Temporal.lean`, for every queued message.  Before the fix `fix: messagequeue: fail messages built
+on a closed queue` it was false for transactions built after the final drain (defect
+`dead-queue-unreported`, now repaired; regression witness `dead_queue_regression`).  On the real code
+the watchdog oracle checks the same after a fair epilogue of every script.
 -/
 namespace GS.C16
 open GS.MQ GS.Alloc
@@ -62,13 +63,12 @@ theorem mid_allowed {s : MQ.State} {m : InFlight} {U : List Sub} {b : Bool} (h :
 /-- **(S1) exactly once, on every schedule, in every state, for every subscriber and message.** -/
 theorem exactly_once {pick : Pick} {peer mr mt mp : Nat} {s : MQ.State} (h : Reachable pick peer mr mt mp s)
     (u : Sub) (t : Nat) : Allowed (seqOf u t s.log) := by
-  rcases h.inv with hf | hn
-  · exact allowed_of_done (hf.done t u)
+  have hn : NInv s := h.inv
   · unfold NInv at hn
     cases hp : s.pc with
     | idle => rw [hp] at hn; exact allowed_of_done (hn.done t u)
     | exiting => rw [hp] at hn; exact allowed_of_done (hn.done t u)
-    | exited => rw [hp] at hn; exact absurd hn (fun x => x)
+    | exited => rw [hp] at hn; exact allowed_of_done (hn.done t u)
     | opening m r =>
       rw [hp] at hn
       cases r with
@@ -83,13 +83,12 @@ theorem queued_only_in_flight {pick : Pick} {peer mr mt mp : Nat} {s : MQ.State}
     ∃ m, s.pc.inflight = some m ∧ t = m.topic := by
   have hnd : ¬ Done [Kind.queued] := by
     intro hd; rcases hd with h' | h' | h' | h' <;> cases h'
-  rcases h.inv with hf | hn
-  · exact absurd (hq ▸ hf.done t u) hnd
+  have hn : NInv s := h.inv
   · unfold NInv at hn
     cases hp : s.pc with
     | idle => rw [hp] at hn; exact absurd (hq ▸ hn.done t u) hnd
     | exiting => rw [hp] at hn; exact absurd (hq ▸ hn.done t u) hnd
-    | exited => rw [hp] at hn; exact absurd hn (fun x => x)
+    | exited => rw [hp] at hn; exact absurd (hq ▸ hn.done t u) hnd
     | opening m r =>
       rw [hp] at hn
       cases r with
@@ -103,13 +102,12 @@ theorem queued_only_in_flight {pick : Pick} {peer mr mt mp : Nat} {s : MQ.State}
 theorem complete_when_idle {pick : Pick} {peer mr mt mp : Nat} {s : MQ.State}
     (h : Reachable pick peer mr mt mp s) (hpc : s.pc.inflight = none) (u : Sub) (t : Nat) :
     Done (seqOf u t s.log) := by
-  rcases h.inv with hf | hn
-  · exact hf.done t u
+  have hn : NInv s := h.inv
   · unfold NInv at hn
     cases hp : s.pc with
     | idle => rw [hp] at hn; exact hn.done t u
     | exiting => rw [hp] at hn; exact hn.done t u
-    | exited => rw [hp] at hn; exact absurd hn (fun x => x)
+    | exited => rw [hp] at hn; exact hn.done t u
     | opening m r => rw [hp] at hpc; cases hpc
     | sending m i => rw [hp] at hpc; cases hpc
     | resetting m i => rw [hp] at hpc; cases hpc
@@ -132,10 +130,10 @@ open GS.Temporal in
 /-- every state of an execution from a fresh queue satisfies the notification invariant and the
     signal invariant -/
 theorem exec_inv {pick : Pick} {peer mr mt mp : Nat} {σ : Nat → MQ.State} (h0 : σ 0 = init peer mr mt mp)
-    (hex : Exec (LSys pick) σ) : ∀ i, J (σ i) ∧ TK (σ i) := by
+    (hex : Exec (LSys pick) σ) : ∀ i, J (σ i) ∧ TK (σ i) ∧ CN (σ i) := by
   intro i
   induction i with
-  | zero => rw [h0]; exact ⟨init_J peer mr mt mp, init_tk peer mr mt mp⟩
+  | zero => rw [h0]; exact ⟨init_J peer mr mt mp, init_tk peer mr mt mp, fun _ => rfl⟩
   | succ i ih =>
     rcases hex i with h | ⟨a, h⟩
     · rw [h]; exact ih
@@ -155,33 +153,49 @@ theorem exec_inv {pick : Pick} {peer mr mt mp : Nat} {σ : Nat → MQ.State} (h0
         | wake w => have h' : some (MQ.step pick (σ i) (.wake w)) = some (σ (i + 1)) := h; exact (Option.some.inj h').symm
         | shutdown => have h' : some (MQ.step pick (σ i) .shutdown) = some (σ (i + 1)) := h; exact (Option.some.inj h').symm
         | env op => have h' : some (MQ.step pick (σ i) (.env op)) = some (σ (i + 1)) := h; exact (Option.some.inj h').symm
-      rw [hs]; exact ⟨step_J pick ih.1 a, step_tk pick ih.2 a⟩
+      rw [hs]; exact ⟨step_J pick ih.1 a, step_tk pick ih.2.1 a, step_cn pick ih.2.2 a⟩
+
+/-- a closed queue has nothing pending -/
+theorem pend_running {t : Nat} {s : MQ.State} (hcn : CN s) (hp : Pend t s) : Running s := by
+  by_cases hc : s.closed = true
+  · exfalso
+    rcases hp with ⟨b, hb, _⟩ | ⟨m, hm, _⟩
+    · rw [hcn hc] at hb; cases hb
+    · rw [closed_inflight_none hc] at hm; cases hm
+  · obtain ⟨peer, maxRetries, builders, nextTopic, token, done, sender, pc, closedStreams, waiters,
+      nextTicket, topics, pubClosed, alloc, log⟩ := s
+    cases pc with
+    | exiting => exact absurd rfl hc
+    | exited => exact absurd rfl hc
+    | idle => exact ⟨(fun h => by cases h), (fun h => by cases h)⟩
+    | opening m r => exact ⟨(fun h => by cases h), (fun h => by cases h)⟩
+    | sending m i => exact ⟨(fun h => by cases h), (fun h => by cases h)⟩
+    | resetting m i => exact ⟨(fun h => by cases h), (fun h => by cases h)⟩
 
 open GS.Temporal in
-/-- **(S2) eventually**, partial = for messages pending while the queue goroutine has not begun its
-    final exit (the hypothesis excluded by `dead_queue_unreported`).  On every weakly fair execution
-    from a fresh queue — any transactions, any network results, Shutdown at any time — every message
-    that is queued with content or in flight is eventually no longer pending, and then every
-    subscriber's notification sequence for it is complete (`[Q,S,close]`, `[Q,E,close]`, `[E,close]`)
-    or empty (the subscriber's request was scrubbed from it after an Error for that request, or it was
-    never attached). -/
+/-- **(S2) eventually** — at full strength for queued messages since the fix `fix: messagequeue: fail
+    messages built on a closed queue` (before it the statement needed "the goroutine has not begun its
+    final exit"; regression witness `dead_queue_regression`).  On every weakly fair execution from a
+    fresh queue — any transactions, any network results, Shutdown at any time — every message that is
+    queued with content or in flight is eventually no longer pending, and then every subscriber's
+    notification sequence for it is complete (`[Q,S,close]`, `[Q,E,close]`, `[E,close]`) or empty (the
+    subscriber's request was scrubbed from it after an Error for that request, or it was never
+    attached).  A transaction built on a closed queue is never pending: it is failed within the same
+    step (`closed_build_rejected`). -/
 theorem eventually {pick : Pick} {peer mr mt mp : Nat} {σ : Nat → MQ.State} (h0 : σ 0 = init peer mr mt mp)
     (hex : Exec (LSys pick) σ) (hwf : WFAll (LSys pick) fairAct σ) (t : Nat) :
-    LeadsTo σ (fun s => Running s ∧ Pend t s) (fun s => ¬ Pend t s ∧ ∀ u, Done (seqOf u t s.log)) := by
-  intro i ⟨hr, hp⟩
-  obtain ⟨hj, htk⟩ := exec_inv h0 hex i
-  have hn : NInv (σ i) := by
-    rcases hj with hf | hn
-    · exact absurd hf.pc hr.2
-    · exact hn
+    LeadsTo σ (fun s => Pend t s) (fun s => ¬ Pend t s ∧ ∀ u, Done (seqOf u t s.log)) := by
+  intro i hp
+  obtain ⟨hj, htk, hcn⟩ := exec_inv h0 hex i
+  have hr : Running (σ i) := pend_running hcn hp
+  have hn : NInv (σ i) := hj
   have hP : LiveP t (σ i) := ⟨hn, htk.1, htk.2, hr, hp⟩
   obtain ⟨j, hij, hq⟩ := leadsTo_of_variant (live_rule pick t) hex hwf i hP
   refine ⟨j, hij, hq, ?_⟩
   intro u
   -- not pending: the sequence cannot be the in-flight one
   obtain ⟨hj', _⟩ := exec_inv h0 hex j
-  rcases hj' with hf | hn'
-  · exact hf.done t u
+  have hn' : NInv (σ j) := hj'
   · unfold NInv at hn'
     have mid : ∀ {m : InFlight} {U : List Sub} {b : Bool}, (σ j).pc.inflight = some m → Mid (σ j) m U [Kind.queued] b →
         Done (seqOf u t (σ j).log) := by
@@ -192,7 +206,7 @@ theorem eventually {pick : Pick} {peer mr mt mp : Nat} {σ : Nat → MQ.State} (
     cases hpc : (σ j).pc with
     | idle => rw [hpc] at hn'; exact hn'.done t u
     | exiting => rw [hpc] at hn'; exact hn'.done t u
-    | exited => rw [hpc] at hn'; exact absurd hn' (fun x => x)
+    | exited => rw [hpc] at hn'; exact hn'.done t u
     | opening m r =>
       rw [hpc] at hn'
       cases r with
@@ -204,13 +218,15 @@ theorem eventually {pick : Pick} {peer mr mt mp : Nat} {σ : Nat → MQ.State} (
 /-! ### who may end with the empty sequence
 
 `eventually` allows `seqOf u t = []` at the end.  The following theorem says exactly when that can
-happen to a subscriber that WAS attached to the queued message: only if an `Error` for one of its own
-requests has been delivered to it (the C15/C16 reading "discarded because another message of the same
-request failed", with the Error published to that same subscriber).  Assumption, recorded in
-checks/C16.json: every request id has ONE subscriber (`tx.sub = f tx.req` for every transaction; the
-response assembler binds the subscriber to the stream in `NewStream`).  Without it a subscriber
-attached to message k of request r can be dropped silently when message j<k of r, carrying a DIFFERENT
-subscriber for r, fails — `silent_drop_without_assumption`. -/
+happen to a subscriber `u` that WAS attached to the queued message `t` through request `r`: only if
+request `r`'s response stream has been closed and an `Error` has been delivered to `u` AFTER the
+moment of the attachment (`errCount u` has grown; the stream of `r` is closed only by the `publishError`
+of a message carrying `r`, which publishes `Error` to `r`'s subscriber in the same step) — the C15/C16
+reading "discarded because another message of the same request failed", with the Error published to
+that same subscriber.  Assumption, recorded in checks/C16.json: every request id has ONE subscriber
+(`tx.sub = f tx.req` for every transaction; the response assembler binds the subscriber to the stream
+in `NewStream`).  Without it a subscriber attached to message k of request r can be dropped silently
+when message j<k of r, carrying a DIFFERENT subscriber for r, fails — `silent_drop_without_assumption`. -/
 
 /-- the system in which every transaction carries its request's own subscriber -/
 def LSysF (pick : Pick) (f : Req → Sub) : GS.Temporal.Sys MQ.State Act where
@@ -256,16 +272,19 @@ theorem lsys_step_eq {pick : Pick} {s s' : MQ.State} {a : Act} (h : (LSys pick).
   | env op => have h' : some (MQ.step pick s (.env op)) = some s' := h; exact (Option.some.inj h').symm
 
 open GS.Temporal in
-/-- **(S2) eventually, for attached subscribers** (partial as `eventually`; assumption: one subscriber
-    per request id).  On every weakly fair execution, a subscriber attached — through a request that
-    has content in it — to a message queued before the goroutine's final exit eventually has a
-    COMPLETE sequence for that message (`[Q,S,close]`, `[Q,E,close]` or `[E,close]`), or has been
-    delivered an `Error` for one of its own requests (whose stream is then closed and whose queued data
-    was discarded).  In particular it is never left without any notification at all. -/
+/-- **(S2) eventually, for attached subscribers** (assumption: one subscriber per request id).  On
+    every weakly fair execution, a subscriber `u` attached to queued message `t` through request `r`
+    (which has content in that message), at a moment when it has been delivered `n0` Errors in all,
+    eventually has a COMPLETE sequence for that message (`[Q,S,close]`, `[Q,E,close]` or `[E,close]`),
+    or request `r`'s stream has been closed and `u` has been delivered an `Error` after that moment
+    (more than `n0` by then; `r`'s queued data was discarded).  The second disjunct is false at the
+    moment of attachment itself (`errCount = n0`), so the conclusion is never satisfied vacuously by an
+    older Error; in particular `u` is never left without any notification at all. -/
 theorem eventually_attached {pick : Pick} {f : Req → Sub} {peer mr mt mp : Nat} {σ : Nat → MQ.State}
     (h0 : σ 0 = init peer mr mt mp) (hex : Exec (LSysF pick f) σ) (hwf : WFAll (LSysF pick f) fairAct σ)
-    (u : Sub) (t : Nat) :
-    LeadsTo σ (fun s => Running s ∧ AttQ u t s) (fun s => Complete (seqOf u t s.log) ∨ ErrSeen f u s) := by
+    (u : Sub) (t : Nat) (r : Req) (n0 : Nat) :
+    LeadsTo σ (fun s => AttQ u t r s ∧ errCount u s.log = n0)
+      (fun s => Complete (seqOf u t s.log) ∨ ErrSeen r u n0 s) := by
   -- the execution is one of the unrestricted fair system
   have hex' : Exec (LSys pick) σ := by
     intro i
@@ -298,7 +317,7 @@ theorem eventually_attached {pick : Pick} {f : Req → Sub} {peer mr mt mp : Nat
       · obtain ⟨h1, h2⟩ := lsysF_step h
         rw [lsys_step_eq h1]
         exact ⟨step_J pick ih.1 a, (step_stepOK pick f ih.1 ih.2 a h2).1⟩
-  have hW : ∀ i d, W f u t (σ i) → W f u t (σ (i + d)) := by
+  have hW : ∀ i d, W u t r n0 (σ i) → W u t r n0 (σ (i + d)) := by
     intro i d hw
     induction d with
     | zero => exact hw
@@ -309,18 +328,71 @@ theorem eventually_attached {pick : Pick} {f : Req → Sub} {peer mr mt mp : Nat
       · obtain ⟨h1, h2⟩ := lsysF_step h
         have : σ (i + (d + 1)) = MQ.step pick (σ (i + d)) a := lsys_step_eq h1
         rw [this]
-        exact (step_stepOK pick f (hinv (i + d)).1 (hinv (i + d)).2 a h2).2 u t ih
-  intro i ⟨hr, hatt⟩
+        exact (step_stepOK pick f (hinv (i + d)).1 (hinv (i + d)).2 a h2).2 u t r n0 ih
+  intro i ⟨hatt, hn0⟩
   have hpend : Pend t (σ i) := by
     obtain ⟨b, hb, ha⟩ := hatt
     exact Or.inl ⟨b, hb, ha.1, ha.nonempty⟩
-  obtain ⟨j, hij, hq, hdone⟩ := eventually h0 hex' hwf' t i ⟨hr, hpend⟩
+  obtain ⟨j, hij, hq, hdone⟩ := eventually h0 hex' hwf' t i hpend
   refine ⟨j, hij, ?_⟩
   obtain ⟨d, rfl⟩ := Nat.exists_eq_add_of_le hij
-  rcases hW i d (Or.inl hatt) with ⟨b, hb, ha⟩ | hne | herr
+  rcases hW i d (Or.inl ⟨hatt, Nat.le_of_eq hn0.symm⟩) with ⟨⟨b, hb, ha⟩, _⟩ | hne | herr
   · exact absurd (Or.inl ⟨b, hb, ha.1, ha.nonempty⟩) hq
   · left
     rcases hdone u with h | h | h | h
+    · exact absurd h hne
+    · exact Or.inl h
+    · exact Or.inr (Or.inl h)
+    · exact Or.inr (Or.inr h)
+  · exact Or.inr herr
+
+/-- non-vacuity of `eventually_attached`, second disjunct: subscriber 0 is attached to queued message 1
+    through request 0 (no Error so far); message 0 of request 0 fails after the retries; message 1 is
+    scrubbed: subscriber 0 has been told nothing about message 1, request 0's stream is closed, and it
+    has received exactly one Error — after the attachment. -/
+example : ∃ s s', Reachable pickMin 0 1 (2^30) (2^30) s ∧ AttQ 0 1 0 s ∧ errCount 0 s.log = 0 ∧
+    ¬ ErrSeen 0 0 0 s ∧
+    s' = runActs pickMin s [.ack false, .ack true, .ack false] ∧
+    seqOf 0 1 s'.log = [] ∧ ErrSeen 0 0 0 s' ∧ errCount 0 s'.log = 1 ∧ s'.builders = [] :=
+  ⟨runActs pickMin (init 0 1 (2^30) (2^30))
+      [.build { who := .response, req := 0, sub := 0, items := [.block 1 1000 true] }, .run true, .ack true,
+       .build { who := .response, req := 0, sub := 0, items := [.block 2 600000 true] }],
+    _, ⟨_, rfl⟩, ⟨_, List.mem_cons_self, by decide, by decide, Or.inl (by decide)⟩, by decide,
+    (fun h => absurd h.2 (by decide)), rfl, by decide, ⟨by decide, by decide⟩, by decide, by decide⟩
+
+/-- **(S2) for a transaction that arrives after the queue has stopped sending** ("the peer's queue
+    shuts down while data is being queued"): in any state satisfying the invariants of all executions
+    (`J`, `CN`, `AI f`: `exec_inv`, `step_stepOK`) whose goroutine has taken the `done` branch, if the
+    build function attaches `u` through request `r` to its message `t` (the state right after
+    `buildMessage`), then at the end of the SAME step nothing is queued and `u` has a complete sequence
+    for `t` (it is `[Error, close]`: `dead_queue_regression`), or `r`'s stream is closed and `u` has been
+    delivered an `Error` during this step. -/
+theorem closed_build_rejected {pick : Pick} {f : Req → Sub} {s : MQ.State} (hj : J s) (hcn : CN s) (hai : AI f s)
+    (hc : s.closed = true) (ticket : Nat) (tx : Tx) (size : Nat) (hf : tx.sub = f tx.req) (u : Sub) (t : Nat) (r : Req)
+    (hatt : AttQ u t r (s.buildMessage pick ticket tx size)) :
+    (s.buildMsg pick ticket tx size).builders = [] ∧
+    (Complete (seqOf u t (s.buildMsg pick ticket tx size).log) ∨
+      ErrSeen r u (errCount u s.log) (s.buildMsg pick ticket tx size)) := by
+  have hn : NInv s := hj
+  have hnil := buildMsg_closed_nil pick s ticket tx size hc (hcn hc)
+  refine ⟨hnil, ?_⟩
+  have o := buildMessage_out pick f s ticket tx size hf
+  have hi := (closed_idle hn hc).quiet (buildMessage_quiet pick s ticket tx size)
+  have ow := drain_W pick f 1 _ hi
+  have hw1 : W u t r (errCount u s.log) (s.buildMessage pick ticket tx size) :=
+    Or.inl ⟨hatt, errCount_mono o.log u⟩
+  have hw2 := ow.w (o.att hai.bfun).1 u t r _ hw1
+  have heq : s.buildMsg pick ticket tx size = State.drain pick 1 (s.buildMessage pick ticket tx size) := by
+    unfold State.buildMsg; rw [if_pos hc]
+  have hn' : NInv (s.buildMsg pick ticket tx size) := buildMsg_ninv pick hn ticket tx size
+  have hc' : (s.buildMsg pick ticket tx size).closed = true := by
+    rw [closed_pc (buildMsg_pc pick s ticket tx size)]; exact hc
+  have hdone := (closed_idle hn' hc').done t u
+  rw [← heq] at hw2
+  rcases hw2 with ⟨⟨b, hb, _⟩, _⟩ | hne | herr
+  · rw [hnil] at hb; cases hb
+  · left
+    rcases hdone with h | h | h | h
     · exact absurd h hne
     · exact Or.inl h
     · exact Or.inr (Or.inl h)
@@ -366,20 +438,26 @@ example : ∃ s, Reachable pickMin 0 1 (2^30) (2^30) s ∧ Running s ∧ Pend 1 
     ⟨_, rfl⟩, ⟨by decide, by decide⟩,
     Or.inl ⟨_, List.mem_cons_self, by decide, by decide⟩, Or.inr ⟨_, rfl, by decide⟩⟩
 
-/-- **(S2) is false after the final drain** (known finding `dead-queue-unreported`): a transaction
-    built while the queue goroutine is already in its deferred exit is queued with its subscriber
-    attached, the goroutine exits, and every later `run`/`ack` is a no-op: subscriber 7 is never told
-    anything about message 0. -/
-theorem dead_queue_unreported :
-    ∃ s, Reachable pickMin 0 1 (2^30) (2^30) s ∧ s.pc = .exited ∧
+/-- **Regression witness of the repaired defect `dead-queue-unreported`** (fixed by `fix:
+    messagequeue: fail messages built on a closed queue`): a transaction built while the queue goroutine
+    is already in its deferred exit.  With the OLD `buildMessage` (`MQ.buildOld`) it is queued with its
+    subscriber attached, the goroutine exits, every later `run`/`ack` is a no-op and subscriber 7 is
+    never told anything about message 0.  With the repaired one the subscriber has `[Error, close]`
+    within the same step, the request's stream is closed and nothing is queued. -/
+theorem dead_queue_regression :
+    (∃ s, s = (MQ.buildOld pickMin (runActs pickMin (init 0 1 (2^30) (2^30)) [.shutdown, .run true])
+          { who := .response, req := 0, sub := 7, items := [.block 1 1000 true] }).ack pickMin true ∧
+      s.pc = .exited ∧
       (∃ b ∈ s.builders, b.topic = 0 ∧ (0, 7) ∈ b.subs ∧ b.empty = false) ∧ seqOf 7 0 s.log = [] ∧
-      (∀ ok, s.ack pickMin ok = s) ∧ (∀ pw, s.run pickMin pw = s) :=
-  ⟨runActs pickMin (init 0 1 (2^30) (2^30))
-      [.shutdown, .run true,
-       .build { who := .response, req := 0, sub := 7, items := [.block 1 1000 true] },
-       .ack true],
-    ⟨_, rfl⟩, by decide, ⟨_, List.mem_cons_self, by decide, by decide, by decide⟩, by decide,
-    fun ok => ack_exited _ _ _ (by decide), fun pw => run_exited _ _ _ (by decide)⟩
+      (∀ ok, s.ack pickMin ok = s) ∧ (∀ pw, s.run pickMin pw = s)) ∧
+    (∃ s, Reachable pickMin 0 1 (2^30) (2^30) s ∧
+      s = runActs pickMin (init 0 1 (2^30) (2^30)) [.shutdown, .run true,
+        .build { who := .response, req := 0, sub := 7, items := [.block 1 1000 true] }] ∧
+      s.pc = .exiting ∧ s.builders = [] ∧ seqOf 7 0 s.log = [.error, .close] ∧ 0 ∈ s.closedStreams ∧
+      allocatedFor s.alloc s.peer = 0) :=
+  ⟨⟨_, rfl, by decide, ⟨_, List.mem_cons_self, by decide, by decide, by decide⟩, by decide,
+    fun ok => ack_exited _ _ _ (by decide), fun pw => run_exited _ _ _ (by decide)⟩,
+   ⟨_, ⟨_, rfl⟩, rfl, by decide, by decide, by decide, by decide, by decide⟩⟩
 
 /-- non-vacuity: a reachable state in which one subscriber has a complete failed sequence, another a
     message in flight, after a send failure and exhausted retries -/
